@@ -238,7 +238,11 @@ class World:
             parts.append(f"r{k}[{','.join(str(self.oid(x)) for x in r.contents)}]")
         return ' '.join(parts)
 
+    emission_hook = None
+
     def on_notif(self, n):
+        if self.emission_hook:
+            self.emission_hook(n)
         who = self.oid(n.notifier)
         fid = self.fid_of.get(id(n.feature))
         self.notifs.append((who, fid, n.kind.name, self.tok(n.old), self.tok(n.new)))
